@@ -269,7 +269,17 @@ def build():
     p.models["queue.Queue"] = new_queue
     p.models["uuid.uuid4"] = lambda i, a, k: (i.ctx.events.append(("uuid4",)), Opaque("uuid", None, hex=CallId.fresh(i.ctx, "callid")))[1]
     p.write_hooks[("Parallel", "_call_id")] = lambda interp, obj, attr, v: held(interp, "_call_id")
-    p.models["Parallel._reset_run_tracking"] = rec("_reset_run_tracking")
+    def reset_run_tracking(interp, recv, args, kwargs):
+        # summary of its contract (part 1): raises RuntimeError iff already running, else sets the flag under the lock
+        interp.ctx.events.append(("_reset_run_tracking",))
+        if interp.ctx.branch(ops.truth(recv.fields["_running"]), "already-running"):
+            interp.ctx.ghost["OTHER_RUN"] = True
+            interp.raise_("RuntimeError")
+        recv.fields["_running"] = True
+        return None
+
+    p.models["Parallel._reset_run_tracking"] = reset_run_tracking
+    p.spec_funcs["other_run_active"] = lambda interp: bool(interp.ctx.ghost.get("OTHER_RUN"))
     p.models["Parallel._initialize_backend"] = lambda i, r, a, k: (i.ctx.events.append(("_initialize_backend",)), i.ctx.ghost["NJOBS"])[1]
     p.models["Parallel._effective_n_jobs"] = lambda i, r, a, k: (i.ctx.events.append(("_effective_n_jobs",)), i.ctx.ghost["NJOBS"])[1]
 
@@ -288,7 +298,12 @@ def build():
     p.models["genobj.__next__"] = lambda i, r, a, k: i.ctx.events.append(("next", r))
     p.models["list:genobj"] = lambda i, v: Opaque("resultlist", None, of=v)
     p.models["weakref.ref"] = lambda i, a, k: Opaque("weakref", None)
-    p.models["iterable.__iter__"] = lambda i, r, a, k: Opaque("taskiter", None, of=r)
+    def iterable_iter(i, r, a, k):
+        if i.ctx.choose(2, "input-is-iterable") == 1:
+            i.raise_("TypeError")  # iter(5): the argument of the call is not iterable
+        return Opaque("taskiter", None, of=r)
+
+    p.models["iterable.__iter__"] = iterable_iter
     p.models["len:iterable"] = lambda i, v: INT.fresh(i.ctx, "ntasks")
     def m_islice(interp, args, kwargs):
         if interp.ctx.branch(ops.as_int_term(args[1]) < 0, "islice:negative-stop"):
@@ -307,8 +322,8 @@ def build():
     p.spec_funcs["limited_to"] = lambda interp, o: o.attrs.get("n")
     p.spec_funcs["is_tag"] = lambda interp, o, tag: isinstance(o, Opaque) and o.tag == tag
     p.add(Contract(
-        PAR, "Parallel.__call__", props=["C04", "C09", "C16", "C01", "C15"], ghost=dict(NJOBS=INT), globals=cglob,
-        params=dict(self=parallel(_running=False, pre_dispatch=OneOf("all", "2 * n_jobs", INT), _id=STR, _original_iterator="unset", _pre_dispatch_amount="unset",
+        PAR, "Parallel.__call__", props=["C04", "C09", "C16", "C01", "C15"], ghost=dict(NJOBS=INT), globals=cglob, inline={"_call"},
+        params=dict(self=parallel(_running=BOOL, pre_dispatch=OneOf("all", "2 * n_jobs", INT), _id=STR, _original_iterator="unset", _pre_dispatch_amount="unset",
                                   _backend=lambda i: Opaque("backend", None, supports_retrieve_callback=True, isinstance=(), hasattr={"stop_call": True, "start_call": True},
                                                             __class__=Opaque("cls", None, __name__="SomeBackend"))),
                     iterable=lambda i: Opaque("iterable", None, hasattr={"__len__": True})),
@@ -324,7 +339,11 @@ def build():
             "generator_is_primed_once": "n_events('next') == 1",
             "list_or_generator_as_requested": "is_tag(result, 'genobj') == self.return_generator",
         },
-        exsures={"RuntimeError": {"no_worker": "NJOBS == 0"}, "ValueError": {"negative_pre_dispatch": "NJOBS != 1 and self.pre_dispatch != 'all'"}},
+        # C04 / C16: whatever makes the call fail before an output generator has taken over, the object stays usable - and a call rejected
+        # because another run is active leaves that run's flag alone
+        exsures={"RuntimeError": {"no_worker_or_overlapping_call": "NJOBS == 0 or other_run_active()", "running_flag": "self._running == other_run_active()"},
+                 "ValueError": {"negative_pre_dispatch": "NJOBS != 1 and self.pre_dispatch != 'all'", "object_stays_usable": "self._running is False"},
+                 "TypeError": {"object_stays_usable": "self._running is False"}},
     ))
     # ------------------------------------------------------------------ _get_sequential_output (n_jobs == 1: calling thread, in order, once each)
     def seq_tasks(interp):
